@@ -507,11 +507,11 @@ func (l *LangRefValue) UnmarshalJSON(data []byte) error {
 		o, _ := val.Object()
 		o.Visit(func(key []byte, v *fastjson.Value) {
 			l.Ref = LangRef(key)
-			l.Value = unescape(v.GetStringBytes())
+			l.Value = append(Content{}, v.GetStringBytes()...)
 		})
 	case fastjson.TypeString:
 		l.Ref = NilLangRef
-		l.Value = unescape(val.GetStringBytes())
+		l.Value = append(Content{}, val.GetStringBytes()...)
 	}
 
 	return nil
@@ -733,12 +733,12 @@ func (n *NaturalLanguageValues) UnmarshalJSON(data []byte) error {
 		ob, _ := val.Object()
 		ob.Visit(func(key []byte, v *fastjson.Value) {
 			if dat := v.GetStringBytes(); len(dat) > 0 {
-				n.Append(LangRef(key), unescape(dat))
+				n.Append(LangRef(key), append(Content{}, dat...))
 			}
 		})
 	case fastjson.TypeString:
 		if dat := val.GetStringBytes(); len(dat) > 0 {
-			n.Append(NilLangRef, unescape(dat))
+			n.Append(NilLangRef, append(Content{}, dat...))
 		}
 	case fastjson.TypeArray:
 		for _, v := range val.GetArray() {
